@@ -67,9 +67,13 @@ def cli_case(rng, idx):
     sents = []
     for i in range(k):
         t = treegen.gen_tree(rng, treegen.Cfg(n_min=1, n_max=6, disc=False, none_fields=False,
-                                              words=["a", "b", "cc", "Haus", "x"], punct_words=[",", "."],
+                                              words=["a", "b", "cc", "Haus", "x", "twentythree_characters_", "twentyfour_characters___",
+                                                     "Donaudampfschifffahrtsgesellschaft"], punct_words=[",", "."],
                                               labels=treegen.PLAIN_LABELS, edges=["HD", "--", "SB"]))
         t.data['sid'] = i + 1
+        for x in trees.terminals(t):
+            if rng.random() < 0.1:
+                x.data['morph'] = rng.choice(["Nom.Sg.Masc.Pos", "Comp.Nom.Pl.Masc", "Comp.Nom.Sg.Masc.x"])     # 15, 16, 18 characters
         s = io.StringIO()
         treeoutput.export(t, s)
         sents.append((s.getvalue(), len(trees.terminals(t))))
